@@ -147,7 +147,7 @@ def nontrivial_C04(sc, obs):
 
 # ------------------------------------------------------------------ C11
 K_C11 = dict(resume=0.45, start=0.3, p_activate=0.2, p_construct=0.2, p_async=0.35, sends=0.15, cbs=0.5,
-             conv=0.3, p_values=0.3, ops=(1, 8), rtc_false=0.2)
+             conv=0.3, p_values=0.3, ops=(1, 8), rtc_false=0.2, decoys=0.35)
 
 
 def nontrivial_C11(sc, obs):
